@@ -202,7 +202,18 @@ func (c *concCtx) scenarioClose(bufsz uint, consumer string, pending string) {
 		c.report("C07", "C07:add-racing-close:"+errClass(addRes), name+": Add racing Close returned "+addRes.Error()+" (neither nil nor ErrClosed)", map[string]interface{}{})
 	}
 	if ok && closed {
-		// channels must close promptly whatever the consumer did: drain them ourselves now
+		// a consumer loop over the channel(s) it reads terminates, whatever is left unread on the other
+		if consumer == "both" || consumer == "onlyEvents" {
+			if !settle(evDone.Load) {
+				c.report("C06", "C06:consumer-loop-not-terminated:Events", name+": the consumer's loop over Events did not see the channel close after Close returned", map[string]interface{}{})
+			}
+		}
+		if consumer == "both" || consumer == "onlyErrors" {
+			if !settle(erDone.Load) {
+				c.report("C06", "C06:consumer-loop-not-terminated:Errors", name+": the consumer's loop over Errors did not see the channel close after Close returned", map[string]interface{}{})
+			}
+		}
+		// channels must close promptly whatever the consumer did: drain them ourselves now, one at a time
 		close(stop)
 		chk := func(what string, closedNow func() bool) {
 			if !settle(closedNow) {
@@ -249,6 +260,13 @@ func (c *concCtx) scenarioClose(bufsz uint, consumer string, pending string) {
 			c.report("C06", "C06:event-after-close-observed", name+": a value arrived on Events after its close was observed", map[string]interface{}{})
 		}
 	} else {
+		if !closed { // Close was called and never completed: neither channel closes, no consumer loop ends
+			evClosed := evDone.Load()
+			erClosed := erDone.Load()
+			if !evClosed || !erClosed {
+				c.report("C06", "C06:channels-never-closed", fmt.Sprintf("%s: Close did not complete; Events closed=%v Errors closed=%v as seen by the consumer", name, evClosed, erClosed), map[string]interface{}{})
+			}
+		}
 		close(stop)
 	}
 	c.r.emit("scenario", "scenario "+strings.ReplaceAll(name, " ", "_"), "ok")
@@ -504,6 +522,15 @@ func (c *concCtx) scenarioLinearizable(g *rng, round int) {
 		return
 	}
 	close(stopFS)
+	// one more WatchList after the reader has caught up with what the calls left in the kernel queue
+	// (IN_IGNORED of removed watches): the set must still be explained by the same sequential order
+	time.Sleep(time.Duration(1+round%3) * time.Millisecond)
+	{
+		call := time.Since(t0).Nanoseconds()
+		l := w.WatchList()
+		sort.Strings(l)
+		ops = append(ops, porcupine.Operation{ClientId: nthreads, Input: linIn{op: "list"}, Call: call, Output: linOut{list: strings.Join(l, "\x00")}, Return: time.Since(t0).Nanoseconds()})
+	}
 	res := porcupine.CheckOperationsTimeout(setModel, ops, 5*time.Second)
 	if res == porcupine.Illegal {
 		var hist []string
